@@ -85,7 +85,7 @@ def _tables():
     import pandas as pd
     out = {}
     for c in ("alpha", "beta"):
-        out[c] = pd.read_csv(os.path.join("/repo/pyrepseq/data", f"vdists_{c}.csv"), index_col=0)
+        out[c] = pd.read_csv(os.path.join(os.environ.get("PV_REPO", "/repo"), "pyrepseq", "data", f"vdists_{c}.csv"), index_col=0)
     return out
 
 
